@@ -1,5 +1,7 @@
 package main
 
+import "math"
+
 import "fmt"
 
 func b2s(b bool) string { return fmt.Sprint(b) }
@@ -134,7 +136,7 @@ func runC12Pred(c *Ctx) {
 			}
 			dx := gap(n(m, "$0.min.X"), n(m, "$0.max.X"), n(m, "$1.min.X"), n(m, "$1.max.X"))
 			dy := gap(n(m, "$0.min.Y"), n(m, "$0.max.Y"), n(m, "$1.min.Y"), n(m, "$1.max.Y"))
-			return []string{fmtNum(sqrtf(dx*dx + dy*dy)), "true"}
+			return []string{"≈" + fmtNum(math.Hypot(dx, dy)), "true"}
 		}})
 }
 
